@@ -176,6 +176,10 @@ Inductive json :=
 | JArr (l : list json)
 | JObj (members : list (str * json)).   (* in emission order; keys distinct when read from Go *)
 
+(* typed constructors for the generated case files (fast elaboration) *)
+Definition jmem (k : str) (j : json) : str * json := (k, j).
+Definition jint (z : Z) : json := JNum (JInt z).
+
 Definition jnum_eqb (a b : jnum) : bool :=
   match a, b with JInt x, JInt y => Z.eqb x y | JFrac, JFrac => true | _, _ => false end.
 
